@@ -23,7 +23,7 @@ CONSTANTS
   S,          \* small domains for the cartesian part (same fields)
   PropSel,    \* property identifiers used in the cartesian part
   FaultSel,   \* names of fault groups to emit
-  RichFaults  \* TRUE: structural faults on every deviation value, FALSE: on the base values only
+  RichFaults  \* TRUE: framing faults also on every one-property value, FALSE: on the base values only
 
 Drop(s, n) == SubSeq(s, n + 1, Len(s))
 Take(s, n) == SubSeq(s, 1, n)
@@ -604,18 +604,28 @@ PropRuleText(name) ==
     [] name = "prop_dup" -> "MQTT5 3.x.2.x: 'It is a Protocol Error to include the ... more than once'"
     [] OTHER -> "MQTT5 3.1.2.11.10 / 3.15.2.2.3: Authentication Data without Authentication Method is a Protocol Error"
 
-\* faults that only look at the framing of an encoded packet
-StructFaults(p) ==
+\* faults that only look at the framing of an encoded packet: cuts ...
+TruncFaults(p) ==
+  LET v == p.v
+      e == Enc(p)
+      ty == TypeNo[p.t]
+      fl == FlagsOf(p)
+      body == Body(p, ShortestForm(p), EncProps)
+      full == Body(p, "full", EncProps) IN
+  {FE("trunc_stream", "2.2.3/2.1.4 Remaining Length = number of bytes that follow; the stream ends before", v, Take(e, k)) : k \in 0..(Len(e) - 1)}
+  \cup {F("trunc_body", "packet structure cut short inside the declared Remaining Length (Malformed Packet)", v, Hdr(ty, fl, Take(body, k))) : k \in 0..(Len(body) - 1)}
+  \cup (IF p.t = "PUBLISH" \/ (p.t = "SUBACK") \/ (p.t = "UNSUBACK" /\ v = 5) THEN {}
+        ELSE {F("trailing", "bytes left over inside the Remaining Length after the last field (Malformed Packet)", v, Hdr(ty, fl, full \o <<0>>))})
+  \cup (IF HasProps(p) THEN {F("proplen_noncanon", "[MQTT-1.5.5-1] Property Length must use the minimum number of bytes", v, Hdr(ty, fl, Body(p, "full", EncPropsPad)))} ELSE {})
+\* ... and fixed-header faults
+FrameFaults(p) ==
   LET v == p.v
       e == Enc(p)
       ty == TypeNo[p.t]
       fl == FlagsOf(p)
       h == ty * 16 + fl
-      body == Body(p, ShortestForm(p), EncProps)
-      full == Body(p, "full", EncProps) IN
-  {FE("trunc_stream", "2.2.3/2.1.4 Remaining Length = number of bytes that follow; the stream ends before", v, Take(e, k)) : k \in 0..(Len(e) - 1)}
-  \cup {F("trunc_body", "packet structure cut short inside the declared Remaining Length (Malformed Packet)", v, Hdr(ty, fl, Take(body, k))) : k \in 0..(Len(body) - 1)}
-  \cup (IF p.t # "PUBLISH"
+      body == Body(p, ShortestForm(p), EncProps) IN
+  (IF p.t # "PUBLISH"
         THEN {F("hdr_flags", R(v, "[MQTT-2.2.2-2] reserved fixed-header flags", "[MQTT-2.1.3-1] reserved fixed-header flags"), v, Hdr(ty, x, body)) : x \in (0..15) \ {fl}}
         ELSE {F("publish_qos3", "[MQTT-3.3.1-4] both QoS bits set", v, Hdr(ty, x, body)) : x \in {6, 7, 14, 15}}
              \cup {F("publish_dup_qos0", "[MQTT-3.3.1-2] DUP must be 0 for QoS 0", v, Hdr(ty, x, Body([p EXCEPT !.qos = 0, !.pid = 0], "full", EncProps))) : x \in {8, 9}})
@@ -623,11 +633,9 @@ StructFaults(p) ==
   \cup {F("rl_5byte", "2.2.3 / 1.5.5: Remaining Length has at most four bytes", v, <<h>> \o VBIPadTo(VBI(Len(body)), 5) \o body)}
   \cup {FE("oversize_declared", "2.2.3/2.1.4: declared Remaining Length far beyond the bytes supplied; bounded allocation", v, <<h>> \o VBI(n) \o body) :
           n \in {1048576} \cup (IF p.t \in {"CONNECT", "PUBLISH", "SUBSCRIBE"} THEN {209715200} ELSE {})}
-  \cup (IF p.t = "PUBLISH" \/ (p.t = "SUBACK") \/ (p.t = "UNSUBACK" /\ v = 5) THEN {}
-        ELSE {F("trailing", "bytes left over inside the Remaining Length after the last field (Malformed Packet)", v, Hdr(ty, fl, full \o <<0>>))})
   \cup {F("type_reserved", R(v, "2.2.1 table 2.1: packet type 0 is reserved", "2.1.2 table 2-1: packet type 0 is reserved"), v, <<fl>> \o VBI(Len(body)) \o body)}
   \cup (IF p.t = "AUTH" THEN {F("auth_before_v5", "3.1.1 2.2.1 table 2.1: packet type 15 is reserved", 4, e)} ELSE {})
-  \cup (IF HasProps(p) THEN {F("proplen_noncanon", "[MQTT-1.5.5-1] Property Length must use the minimum number of bytes", v, Hdr(ty, fl, Body(p, "full", EncPropsPad)))} ELSE {})
+StructFaults(p) == TruncFaults(p) \cup FrameFaults(p)
 
 VF(name, rule, q) == F(name, rule, q.v, EncForm(q, "full"))
 BadStrRule(v) == R(v, "[MQTT-1.5.3-1], [MQTT-1.5.3-2] ill-formed UTF-8 / U+0000", "[MQTT-1.5.4-1], [MQTT-1.5.4-2] ill-formed UTF-8 / U+0000")
@@ -725,8 +733,15 @@ FaultBases(t, v) ==
     [] t \in {"DISCONNECT", "AUTH"} -> {MkCodeProps(t, v, 0, <<>>)}
                                         \cup (IF v = 5 THEN {MkCodeProps(t, v, IF t = "AUTH" THEN 24 ELSE 4, IF t = "AUTH" THEN <<P(21, 0, <<109>>, <<>>)>> ELSE <<P(31, 0, <<114>>, <<>>)>>)} ELSE {})
 
+\* thorough tier: cuts (truncation at every offset ...) also on every value that carries exactly one property
+RichVals(t, v) == {p \in Vals(t, v) : /\ HasProps(p) /\ Len(p.props) = 1
+                                      /\ (p.t = "CONNECT" => (~p.will /\ ~p.uflag /\ ~p.pflag /\ p.clean))
+                                      /\ (p.t = "CONNACK" => (~p.sp /\ p.code = 0))
+                                      /\ (p.t = "PUBLISH" => (p.qos = 1 /\ ~p.dup /\ p.retain))
+                                      /\ (p.t \in PubAcks => p.pid = 1)}
 FaultsOf(t, v) ==
-  UNION {StructFaults(p) : p \in (IF RichFaults THEN Vals(t, v) ELSE FaultBases(t, v))}
+  UNION {StructFaults(p) : p \in FaultBases(t, v)}
+  \cup (IF RichFaults THEN UNION {TruncFaults(p) : p \in RichVals(t, v)} ELSE {})
   \cup UNION {TypeFaults(p) : p \in FaultBases(t, v)}
 
 (***************************************************************************)
